@@ -869,8 +869,24 @@ class Evaluator:
         return None
 
     def st_Assert(self, st, fr):
-        if not self.decide(self.eval(st.test, fr), st):
+        """An assert states an invariant: when its condition folds to false it raises; when the evaluator cannot decide it the
+        invariant is ASSUMED for the rest of the path (no fork) and recorded as an `assert_assumed` event (evidence lists them)."""
+        try:
+            c = self.truth(self.eval(st.test, fr))
+        except AnalysisError:
+            c = None
+        if isinstance(c, Const):
+            if not c.value:
+                raise RaiseSignal(App("AssertionError", ()), st)
+            return None
+        k = self.known_truth(c) if c is not None else None
+        if k is False:
             raise RaiseSignal(App("AssertionError", ()), st)
+        if k is None:
+            self.event("assert_assumed", node=st, text=ast.unparse(st.test)[:120])
+            if c is not None:
+                self.pc.append((c, True))
+        return None
 
     def st_Delete(self, st, fr):
         return None
